@@ -241,6 +241,12 @@ def pat_desc(pat):
         return "lit:%r" % (pat.get("v"),)
     if k == "prange":
         return "range"
+    if k == "pslice":
+        parts = [pat_desc(p) for p in pat["before"]]
+        if pat.get("mid") is not None:
+            parts.append("..")
+        parts += [pat_desc(p) for p in pat["after"]]
+        return "[" + ",".join(parts) + "]"
     return "?" + str(k)
 
 
